@@ -17,6 +17,7 @@ import z3
 from vf.common import real, REPO
 from vf.dcsym import quiet
 from vf.pyxstrip import load_pyx
+from vf import symnp as _symnp
 from vf.symnp import SArr, SymNP, _truth
 from vf.symx import (Engine, SBool, SFloat, SInt, rebind, sabs, srange, toint,
                      tobool, NotModelled)
@@ -449,6 +450,8 @@ def run_scatter(eng, N, remove_invalid, xscale, yscale, variant):
         return SArr(out, float)
     npx = sym_np(variant, log_stub)
     mod = pyx_module(npx)
+    # a cast to a narrower float type overflows / underflows / rounds
+    _symnp.NARROW_FLOAT_CASTS = True
 
     class DS:
         pass
